@@ -344,12 +344,16 @@ theorem transform_ops (x : Ext) (cfg : Cfg) (env : Env) (name s ifs : Str)
     paramExp x cfg env { name := name, exp := some (.other, ['U']) } = .ok (s.map toUpper, env) ∧
     paramExp x cfg env { name := name, exp := some (.other, ['L']) } = .ok (s.map toLower, env) ∧
     paramExp x cfg env { name := name, exp := some (.other, ['u']) } = .ok (upperFirstRune s, env) ∧
-    (∀ q, x.Q s = some q → paramExp x cfg env { name := name, exp := some (.other, ['Q']) } = .ok (q, env)) := by
-  refine ⟨?_, ?_, ?_, ?_⟩
+    (∀ q, x.Q s = some q → paramExp x cfg env { name := name, exp := some (.other, ['Q']) } = .ok (q, env)) ∧
+    (x.Q s = none → paramExp x cfg env { name := name, exp := some (.other, ['Q']) } = .error .quote) := by
+  refine ⟨?_, ?_, ?_, ?_, ?_⟩
   · rw [other_scalar_eq x cfg env name s ifs _ hifs hp hv]; rfl
   · rw [other_scalar_eq x cfg env name s ifs _ hifs hp hv]; rfl
   · rw [other_scalar_eq x cfg env name s ifs _ hifs hp hv]; rfl
   · intro q hq
+    rw [other_scalar_eq x cfg env name s ifs _ hifs hp hv]
+    simp [otherOp, hq, Except.map]
+  · intro hq
     rw [other_scalar_eq x cfg env name s ifs _ hifs hp hv]
     simp [otherOp, hq, Except.map]
 
@@ -406,12 +410,24 @@ theorem pinned_empty_list_unset :
     paramExp xLit {} [(['@'], Var.ofList [])] { name := ['@'], exp := some (.defUnset, ['d']) }
       = .ok (['d'], [(['@'], Var.ofList [])]) := by decide
 
-/-! ## a Go panic that is reachable -/
+/-! ## a subscript of an associative array that is not a plain word -/
 
-/-- finding C21-assoc-negative-subscript: `declare -A x=([a]=b); ${x[-1]}` panics -/
-theorem assoc_negative_subscript_panics :
+/-- finding C21-assoc-negative-subscript: `declare -A x=([a]=b); ${x[-1]}` is the error
+    "unsupported associative array subscript" (a Go panic before 443024b; bash uses the text `-1`
+    as the key and expands to nothing). -/
+theorem assoc_negative_subscript_error :
     paramExp xLit {} [(xN, Var.ofMap [(['a'], ['b'])])] { name := xN, idx := .word (sOf "-1") false }
-      = .error .panic := by decide
+      = .error .assocSubscript := by decide
+
+/-- No subscript form of an associative array reaches a Go panic any more (well-formed or not). -/
+theorem assoc_subscript_no_panic (ifs : Str) (m : List (Str × Str)) (idx : Idx) :
+    varInd ifs (Var.ofMap m) idx ≠ .error .panic := by
+  cases idx with
+  | none => simp only [varInd, varIndNone, ofMap_kind]; split <;> simp
+  | «at» => simp [varInd, varIndSome, Idx.lit]
+  | star => simp [varInd, varIndSome, Idx.lit]
+  | word t w =>
+    cases w <;> simp only [varInd, varIndSome, ofMap_kind, Idx.lit] <;> repeat (first | split | simp)
 
 /-! ## non-vacuity -/
 
